@@ -7,7 +7,7 @@
    one iteration per character (+1), takes only in-bounds slices on character boundaries, and its tokens
    tile the input. *)
 From Coq Require Import NArith List Bool.
-From GV Require Import model.Utf8 gen.TablesLexer model.Lexer proofs.LexerProofs.
+From GV Require Import model.Utf8 gen.TablesLexer model.Lexer proofs.LexerProofs model.ParserSkel proofs.ParserSkelProofs.
 Import ListNotations.
 Open Scope N_scope.
 
@@ -72,3 +72,53 @@ Example C15lex_example_ok :   (* a<='x *)
 Proof. split; [reflexivity | eexists; vm_compute; reflexivity]. Qed.
 Example C15lex_example_err : tokenize ascii_alpha no_numeric [97; 123] = Err 123.
 Proof. vm_compute. reflexivity. Qed.
+
+(* ---- the parser skeleton (model/ParserSkel.v: Parser::next / peek_nth / ... and the Pratt expression parser of
+   ast/expr.rs on the token list; PUnsup where the Rust leaves the expression grammar for QueryNode::parse) ---- *)
+
+(* for EVERY token list: `self.toks[self.idx]` is never out of range (no PPanic) and all loops / recursion end
+   within 3 * tokens + 2 calls (the fuel inside parse_expr): the answer is an AST, an error or PUnsup *)
+Theorem C15lex_parser_total : forall toks,
+  out (parse_expr toks) <> PPanic /\ out (parse_expr toks) <> PFuel.
+Proof. exact parser_total. Qed.
+Print Assumptions C15lex_parser_total.
+
+(* a successful Expr::parse consumes at least one token and leaves the index inside the token list *)
+Theorem C15lex_parser_progress : forall toks e i,
+  out (parse_expr toks) = POk (e, i) -> (1 <= i /\ i <= length toks)%nat.
+Proof. exact parser_progress. Qed.
+Print Assumptions C15lex_parser_progress.
+
+(* native recursion depth (nested active Expr::parse_subexpr frames), whatever the outcome: at most tokens + 1 *)
+Theorem C15lex_parser_depth_le_tokens : forall toks, (dep (parse_expr toks) <= length toks + 1)%nat.
+Proof. exact parser_depth_le_tokens. Qed.
+Print Assumptions C15lex_parser_depth_le_tokens.
+
+(* ... and the bound is reached: n tokens "- - ... -" nest n + 1 frames (the stack use is Theta(tokens): no
+   constant bound exists; findings/C15.json parser-stack-overflow) *)
+Theorem C15lex_parser_depth_tight : forall n,
+  length (repeat (TOp OMinus) n) = n /\
+  out (parse_expr (repeat (TOp OMinus) n)) = PErr /\ dep (parse_expr (repeat (TOp OMinus) n)) = (n + 1)%nat.
+Proof. exact parser_depth_tight. Qed.
+Print Assumptions C15lex_parser_depth_tight.
+
+(* the successful family of the known finding: 300 nested parentheses around 1 parse and nest 301 frames *)
+Theorem C15lex_parser_depth_parens :
+  length (nested_parens 300) = 601%nat /\ dep (parse_expr (nested_parens 300)) = 301%nat /\
+  exists e, out (parse_expr (nested_parens 300)) = POk (e, 601%nat).
+Proof. exact parens_300. Qed.
+Print Assumptions C15lex_parser_depth_parens.
+
+(* the precedences the skeleton reads from ast/expr.rs were all found *)
+Theorem C15lex_precedences_present :
+  Forall (fun p : option N => p <> None)
+    [prec_or; prec_and; prec_not; prec_is; prec_comparison; prec_containment; prec_everything_else;
+     prec_add_sub; prec_mul_div_mod; prec_exponentiation; prec_unary_minus; prec_array_elem; prec_cast].
+Proof. exact precedences_present. Qed.
+Print Assumptions C15lex_precedences_present.
+
+Example C15lex_example_parse :   (* 1 +2 *)
+  parse_expr [TNumber [49]; TWhitespace; TOp OPlus; TNumber [50]] =
+  mk_res (POk (SN "BinaryExpr"%tag [SN "Literal"%tag [SN "Number"%tag [SS [49]]]; SN "Plus"%tag [];
+                                    SN "Literal"%tag [SN "Number"%tag [SS [50]]]], 4%nat)) 2.
+Proof. exact example_1_plus_2. Qed.
